@@ -84,14 +84,6 @@ Proof. reflexivity. Qed.
 (** each conjunct of [wf] is needed: witnesses that do NOT survive *)
 Definition with_vol (v : volume) : orange_input :=
   mkInput [UUnit (mkUnit [] [v] inf_bbox [] [] (mkLabel "u" ""))] (mkTol ftol ftol).
-Definition survives (x : orange_input) : bool :=
-  match enc_input x with
-  | Some j => match dec_input (wire j) with
-              | Some y => match enc_input y with        (* compare through a second encoding + wf *)
-                          | Some j' => true | None => false end
-              | None => false end
-  | None => false
-  end.
 Definition rt (x : orange_input) : option orange_input :=
   match enc_input x with Some j => dec_input (wire j) | None => None end.
 
